@@ -166,6 +166,11 @@ func postArgs(d *D, s *S, n int) error { rt.Call("postArgs", d, s, n); return rt
 		}
 		fmt.Fprintf(&sb, "\t%s%d(%s) %s\n", t.pick("Conv", "To", "copy"), j, params, res)
 	}
+	if t.ch(0.3) {
+		// source and destination of one type: a clone must not share slices with its original either
+		fmt.Fprintf(&sb, "\tClone(%sD) %sD\n", t.pick("*", "*", ""), t.pick("*", "*", ""))
+		t.feat("same-type-clone")
+	}
 	sb.WriteString("}\n")
 	t.files[t.name+"/setup.go"] = sb.String()
 	t.files[t.name+"/types.go"] = ty
